@@ -1488,6 +1488,9 @@ def store14(ctx) -> List[Ob]:
                     if d == "insert_block":
                         bt = kw(n, "block_type", 3)
                         what += "(" + ((A.dotted(bt) or "?").split(".")[-1] if bt is not None else "?") + ")"
+                    elif d.startswith("insert_Synthetic"):
+                        # the typed wrapper and the primitive it forwards to are one kind of site
+                        what = "insert_block(" + d[len("insert_"):] + ")"
                     elif d == "extract_region":
                         k_ = kw(n, "region_kind", 2)
                         what += "(" + (repr(k_.value) if isinstance(k_, ast.Constant) else "?") + ")"
@@ -1500,4 +1503,249 @@ def store14(ctx) -> List[Ob]:
             if what is None:
                 continue
             out.append(bad("STORE-14", fn.qualname, "mutation: " + what, ctx.where(fn, n), f"{fn.qualname} changes a graph through {what} at a place that is not one of the audited mutation sites of the pipeline: a step was added to (or duplicated in) the restructuring algorithm, and the rules that check path preservation, conservation and the region bookkeeping only cover the audited steps"))
+    return out
+
+
+# ------------------------------------------------------------------ STORE-15
+
+# kinds of blocks that loop_restructure_helper creates *outside* the loop (one line of reason each)
+_OUTSIDE_LOOP_KINDS = {
+    "synth_exit": "the exit branch is entered from the latch after the loop has been left; its targets are the exit blocks",
+}
+
+
+@rule("STORE-15", 4, "every block that loop restructuring creates inside the loop joins the loop set on every path to the end of the helper (the set is what extract_region wraps): directly, or through a collection that is merged into the set on every path")
+def store15(ctx) -> List[Ob]:
+    out: List[Ob] = []
+    fn = ctx.prog.find_function("loop_restructure_helper", "transformations")
+    if fn is None:
+        raise AnalysisError("loop_restructure_helper not found")
+    params = [p.arg for p in fn.params]
+    if len(params) < 2:
+        raise AnalysisError("loop_restructure_helper: expected (scfg, loop)")
+    L = params[1]
+    cfg = ctx.cfg(fn)
+    m = fn.module
+
+    def kind_of(call: ast.Call) -> Optional[str]:
+        if call.args:
+            try:
+                v = ctx.prog.const_value(m, call.args[0])
+                return v if isinstance(v, str) else None
+            except AnalysisError:
+                return None
+        return None
+
+    # created names: N = <..>.new_block_name(K)
+    created = []
+    for st in A.walk_no_nested(fn.node):
+        if isinstance(st, ast.Assign) and len(st.targets) == 1 and isinstance(st.targets[0], ast.Name) and isinstance(st.value, ast.Call) and isinstance(st.value.func, ast.Attribute) and st.value.func.attr == "new_block_name":
+            created.append((st.targets[0].id, st, kind_of(st.value)))
+    if not created:
+        raise AnalysisError("loop_restructure_helper creates no block names")
+
+    def names_for(nm: str, def_stmt: ast.AST) -> Set[str]:
+        """nm and the locals that may hold the same name (x = nm)"""
+        al = {nm}
+        for st in A.walk_no_nested(fn.node):
+            if isinstance(st, ast.Assign) and len(st.targets) == 1 and isinstance(st.targets[0], ast.Name) and isinstance(st.value, ast.Name) and st.value.id in al:
+                al.add(st.targets[0].id)
+        return al
+
+    def adds_to(coll: str, names: Set[str]):
+        return [c for c in method_calls(fn.node, "add") if A.unparse(c.func.value) == coll and c.args and isinstance(c.args[0], ast.Name) and c.args[0].id in names]
+
+    exits = [cfg.exit]
+    bnames15 = {c_.name for c_ in block_classes(ctx.prog)}
+    seen_keys: Dict[str, int] = {}
+    for nm, st, kind in created:
+        key0 = f"{kind or '?'} block {nm} joins {L}"
+        seen_keys[key0] = seen_keys.get(key0, 0) + 1
+        key = key0 if seen_keys[key0] == 1 else f"{key0} #{seen_keys[key0]}"
+        where = ctx.where(fn, st)
+        if kind in _OUTSIDE_LOOP_KINDS:
+            joins = adds_to(L, names_for(nm, st))
+            if joins:
+                out.append(bad("STORE-15", fn.qualname, key, ctx.where(fn, joins[0]), f"the {kind} block is added to the loop set: {_OUTSIDE_LOOP_KINDS[kind]}"))
+            else:
+                out.append(ok("STORE-15", fn.qualname, key.replace("joins", "stays out of"), where, _OUTSIDE_LOOP_KINDS[kind], nontrivial=False))
+            continue
+        names = names_for(nm, st)
+        dn = cfg.node_of(st)
+        # insertion sites of this name: add_block(<ctor>(name=N ..)) / insert_*(N, ..) reachable from its definition
+        ins = []
+        for c in A.walk_no_nested(fn.node):
+            if not isinstance(c, ast.Call):
+                continue
+            d = (A.dotted(c.func) or "").split(".")[-1]
+            if d.startswith("insert_") and c.args and isinstance(c.args[0], ast.Name) and c.args[0].id in names:
+                ins.append(c)
+            elif d == "add_block" and c.args:
+                a0 = c.args[0]
+                if isinstance(a0, ast.Name):
+                    from .common import see_through
+
+                    a0 = see_through(ctx, fn, a0) or a0
+                if isinstance(a0, ast.Call) and (A.dotted(a0.func) or "").split(".")[-1] in bnames15:
+                    nmk = kw(a0, "name", 0)
+                    if isinstance(nmk, ast.Name) and nmk.id in names:
+                        ins.append(c)
+        ins = [c for c in ins if dn is None or cfg.node_of(c) in cfg.reachable(dn)]
+        if not ins:
+            out.append(ok("STORE-15", fn.qualname, key, where, f"{nm} is never inserted into the graph here", nontrivial=False))
+            continue
+        # joins: L.add(N), or M.add(N) with L.update(M) / L |= M later on every path
+        direct = [cfg.node_of(c) for c in adds_to(L, names)]
+        via = []
+        for c in method_calls(fn.node, "add"):
+            coll = A.unparse(c.func.value)
+            if coll != L and c.args and isinstance(c.args[0], ast.Name) and c.args[0].id in names and isinstance(c.func.value, ast.Name):
+                merges = [cfg.node_of(u) for u in method_calls(fn.node, "update") if A.unparse(u.func.value) == L and u.args and A.unparse(u.args[0]) == coll]
+                merges += [cfg.node_of(u) for u in A.walk_no_nested(fn.node) if isinstance(u, ast.AugAssign) and isinstance(u.op, ast.BitOr) and A.unparse(u.target) == L and A.unparse(u.value) == coll]
+                via.append((cfg.node_of(c), [x for x in merges if x is not None]))
+        problems = []
+        for c in ins:
+            i_node = cfg.node_of(c)
+            if i_node is None:
+                continue
+            ok_here = False
+            for j in direct:
+                if j is not None and (cfg.dominates(j, i_node) or all(cfg.all_paths_pass(i_node, e, lambda z, j=j: z is j) for e in exits)):
+                    ok_here = True
+            for j, merges in via:
+                if j is None or not merges:
+                    continue
+                recorded = cfg.dominates(j, i_node) or all(cfg.all_paths_pass(i_node, e, lambda z, j=j: z is j) for e in exits)
+                start = i_node if cfg.dominates(j, i_node) else j
+                merged = all(cfg.all_paths_pass(start, e, lambda z, ms=merges: z in ms) for e in exits)
+                if recorded and merged:
+                    ok_here = True
+            if not ok_here:
+                problems.append(c)
+        if problems:
+            c = problems[0]
+            out.append(bad("STORE-15", fn.qualname, key, ctx.where(fn, c), f"block {nm} is inserted into the graph (line {A.lineno(c)}) but some path to the end of the helper does not add it to {L}: the region extracted from {L} leaves it outside, the loop region gets a second header / loses its latch and extract_region aborts",
+                           [f"insertion: {A.unparse(c)[:80]}", f"joins seen: {[A.unparse(n_.stmt)[:40] for n_ in direct if n_ is not None] + [A.unparse(j.stmt)[:40] for j, _ in via if j is not None]}"]))
+        else:
+            out.append(ok("STORE-15", fn.qualname, key, where, f"{nm} is in {L} on every path from its insertion to the end of the helper"))
+    return out
+
+
+# ------------------------------------------------------------------ STORE-16
+
+
+def _forall_not_inner(test: ast.AST, L: str, H: str) -> Optional[bool]:
+    """Does `test` imply: no element v of <block>.jump_targets is in the loop set L without being a header H?
+    Recognised: not any(B(v) for v in X.jump_targets) / all(B(v) for v in ..), B a boolean combination of
+    `v in L`, `v not in L`, `v in H`, `v not in H` (H possibly wrapped in set()/frozenset()).
+    True: implied; False: recognised but weaker; None: not of this form."""
+    neg = False
+    t = test
+    while isinstance(t, ast.UnaryOp) and isinstance(t.op, ast.Not):
+        t, neg = t.operand, not neg
+    if not (isinstance(t, ast.Call) and isinstance(t.func, ast.Name) and t.func.id in ("any", "all") and len(t.args) == 1 and isinstance(t.args[0], (ast.GeneratorExp, ast.ListComp)) and len(t.args[0].generators) == 1):
+        return None
+    g = t.args[0].generators[0]
+    if not (isinstance(g.target, ast.Name) and isinstance(g.iter, ast.Attribute) and g.iter.attr == "jump_targets"):
+        return None
+    v = g.target.id
+    body = t.args[0].elt
+    if g.ifs:
+        # any(B for v in X if C)  ==  any(C and B ..);  all(B for v in X if C)  ==  all(not C or B ..)
+        c = g.ifs[0] if len(g.ifs) == 1 else ast.BoolOp(op=ast.And(), values=list(g.ifs))
+        body = ast.BoolOp(op=ast.And(), values=[c, body]) if t.func.id == "any" else ast.BoolOp(op=ast.Or(), values=[ast.UnaryOp(op=ast.Not(), operand=c), body])
+
+    def ev(e, inL, inH):
+        if isinstance(e, ast.BoolOp):
+            vals = [ev(x, inL, inH) for x in e.values]
+            if any(x is None for x in vals):
+                return None
+            return all(vals) if isinstance(e.op, ast.And) else any(vals)
+        if isinstance(e, ast.UnaryOp) and isinstance(e.op, ast.Not):
+            r = ev(e.operand, inL, inH)
+            return None if r is None else not r
+        if isinstance(e, ast.Compare) and len(e.ops) == 1 and isinstance(e.ops[0], (ast.In, ast.NotIn)) and isinstance(e.left, ast.Name) and e.left.id == v:
+            c = e.comparators[0]
+            while isinstance(c, ast.Call) and isinstance(c.func, ast.Name) and c.func.id in ("set", "frozenset", "list", "tuple") and len(c.args) == 1:
+                c = c.args[0]
+            if isinstance(c, ast.Name) and c.id in (L, H):
+                r = inL if c.id == L else inH
+                return r if isinstance(e.ops[0], ast.In) else not r
+        return None
+
+    implied = True
+    for inL in (False, True):
+        for inH in (False, True):
+            b = ev(body, inL, inH)
+            if b is None:
+                return None
+            offending = inL and not inH
+            if t.func.id == "any":
+                # guard (after negation) says: no v with B(v).  Needed: offending => B
+                holds_for_all = neg  # `not any(..)`
+                if not holds_for_all:
+                    return False
+                if offending and not b:
+                    implied = False
+            else:
+                # all(B): needed (un-negated): offending => not B
+                if neg:
+                    return False
+                if offending and b:
+                    implied = False
+    return implied
+
+
+@rule("STORE-16", 1, "a back edge is declared on an existing block of the loop (the single-exiting-latch short cut) only when that block has no successor inside the loop other than the header(s): a latch that also takes part in an inner cycle is re-targeted there from its filtered successor view and loses the declared arc")
+def store16(ctx) -> List[Ob]:
+    out: List[Ob] = []
+    fn = ctx.prog.find_function("loop_restructure_helper", "transformations")
+    if fn is None:
+        raise AnalysisError("loop_restructure_helper not found")
+    params = [p.arg for p in fn.params]
+    L = params[1]
+    # the headers variable: first target of `H, E = scfg.find_headers_and_entries(L)`
+    H = None
+    for st in A.walk_no_nested(fn.node):
+        if isinstance(st, ast.Assign) and isinstance(st.value, ast.Call) and (A.dotted(st.value.func) or "").endswith("find_headers_and_entries") and isinstance(st.targets[0], ast.Tuple):
+            H = A.unparse(st.targets[0].elts[0])
+    if H is None:
+        raise AnalysisError("loop_restructure_helper: headers not found")
+    from .ctrl import _guard_conditions
+    from .common import see_through
+
+    sites = []
+    for c in A.walk_no_nested(fn.node):
+        if isinstance(c, ast.Call) and isinstance(c.func, ast.Attribute) and c.func.attr == "declare_backedge":
+            recv = c.func.value
+            if isinstance(recv, ast.Name):
+                recv = see_through(ctx, fn, recv) or recv
+            # an existing block: taken out of / read from the graph (not a block built on the spot)
+            txt = A.unparse(recv)
+            if ".pop(" in txt or "graph[" in txt or txt.startswith("scfg[") or isinstance(recv, ast.Subscript):
+                sites.append(c)
+    if not sites:
+        out.append(ok("STORE-16", fn.qualname, "no short cut: back edges are declared on freshly built latches only", ctx.where(fn), "loop_restructure_helper declares no back edge on an existing block", nontrivial=False))
+        return out
+    for c in sites:
+        key = "short cut guarded: " + A.alpha_key(c)
+        where = ctx.where(fn, c)
+        verdicts = []
+        for t_, pol in _guard_conditions(fn.node, c):
+            try:
+                te = ast.parse(t_, mode="eval").body
+            except SyntaxError:
+                continue
+            conj = te.values if isinstance(te, ast.BoolOp) and isinstance(te.op, ast.And) and pol else [te if pol else ast.UnaryOp(op=ast.Not(), operand=te)]
+            for cj in conj:
+                if isinstance(cj, ast.Name):
+                    d_ = see_through(ctx, fn, cj)
+                    cj = d_ if d_ is not None else cj
+                verdicts.append(_forall_not_inner(cj, L, H))
+        if any(v is True for v in verdicts):
+            out.append(ok("STORE-16", fn.qualname, key, where, f"taken only when no successor of the latch is in {L} without being in {H}"))
+        elif any(v is False for v in verdicts):
+            out.append(bad("STORE-16", fn.qualname, key, where, f"the guard on the latch's successors does not exclude every successor that is in {L} and not in {H}"))
+        else:
+            out.append(bad("STORE-16", fn.qualname, key, where, f"{A.unparse(c)[:60]} is reached without a test that the latch has no other successor inside {L}: a three-way latch (exit, header, inner block or itself) keeps an inner cycle; restructuring that cycle copies the latch's filtered successors back as the full tuple, the declared arc is lost (or declare_backedge asserts on the second declaration)"))
     return out
